@@ -388,6 +388,13 @@ for i, tier, cap in ((I(8, 1), 'quick', 900), (I(8, 2), 'thorough', 3600)):
         add(H('C04', f"c04_mul_ops_{md}_{i.tag}", 'c04_mul_ops', f"36, {i.std().rsplit(',', 1)[0]}, {md}", tier=tier, mode=mode, inst=i.label, cap=cap,
               kind='panic' if md == 'panic' else 'normal', core=False,
               funcs=f'operator *, pow, next_multiple_of (BUint, BInt) ({md})', bound='all operands, exponent over all of u32'))
+for i, tag, bv, tier in ((I(64, 2), 'three', [3, 0], 'quick'), (I(64, 2), 'p2p1', [1, 1], 'thorough'), (I(64, 3), 'p2s', [0, 1, 0x8000000000000000], 'thorough'), (I(32, 2), 'five', [5, 0], 'thorough'),
+                         (I(64, 2), 'min', [0, 0x8000000000000000], 'thorough'), (I(16, 4), 'p48p1', [1, 0, 0, 1], 'thorough')):
+    L = i.bits // 64
+    for md, mode in (('ok', 'dbg'), ('panic', 'dbg'), ('rel', 'rel')):
+        add(H('C04', f"c04_cmul_ops_{md}_{i.tag}_{tag}", 'c04_cmul_ops', f"{max(2 * L, i.n) + 3}, {i.U}, {i.I}, {i.digit}, {i.n}, {L}, {2 * L}, [{', '.join(hex(v) for v in bv)}], {md}", tier=tier, mode=mode, inst=i.label, cap=1800,
+              kind='panic' if md == 'panic' else 'normal', core=False, mem_gb=10,
+              funcs=f'operators * / % (BUint, BInt) with one concrete operand ({md})', bound=f'all values of the other operand; concrete operand {tag}; exactness predicate = harness-side limb product'))
 for i, tier in ((I(8, 1), 'quick'), (I(8, 2), 'thorough'), (I(16, 2), 'thorough'), (I(64, 2), 'thorough')):
     for mode in ('dbg', 'rel'):
         add(H('C04', f"c04_div_log_panic_{i.tag}", 'c04_div_log_panic', f"{i.n + 3}, {i.std().rsplit(',', 1)[0]}", tier=tier, mode=mode, inst=i.label, kind='panic', cap=3600, mem_gb=30,
@@ -814,7 +821,7 @@ OUTSIDE = {
             'the text core::fmt produces from the (sign, prefix, numeral) triple (pad_integral is trusted; its model is validated natively)'],
     'C16': ['decimal parsing / printing across configurations', 'mul/div/pow equivalence above 16 bits outside the boundary alphabet'],
     'C17': ['Mul/Div/Rem operator forms above 8 bits (quick tier)'],
-    'C18': ['sqrt / cbrt / nth_root on general values', 'Integer arithmetic above 8 bits (quick tier)'],
+    'C18': ['the value the Newton iteration of sqrt / cbrt / nth_root converges to (only its first step is decided) and the u128 roots of num-integer', 'Integer arithmetic above 8 bits (quick tier)'],
     'C20': ['range sampling above 8 bits (quick) / 16 bits (thorough)', 'RNG streams with more than 2 consecutive rejections', 'statistical quality of the underlying RNG'],
 }
 ASSUME = {
@@ -862,7 +869,8 @@ CLAIMS = {
                   'bnum types outside the 24-type set {U,I} x {D8x1,3,5,9, D16x1,3,5, D32x1,3, D64x1,2,3} (+ D8x17, D64x5 for primitives); float casts are C14.',
                   'bit-indexed specification with a symbolic target bit index'),
     'C10': _claim('from_str_radix / FromStr / parse_bytes / from_radix_be / from_radix_le agree with a reference parser (sign, digit values, exact Horner value, representability, '
-                  'error kind) on ALL byte strings up to the stated length for the listed radices, including strings one and two characters longer than the capacity (leading zeros).',
+                  'error kind) on ALL byte strings up to the stated length for the listed radices, including strings one and two characters longer than the capacity (leading zeros); '
+                  'and on all strings of a CONCRETE length equal to the capacity of 64- and 128-bit types (sign / leading zero / one digit too many; first byte concrete).',
                   'strings longer than 10 bytes (radix 2) / capacity + 2; widths above 16 bits in full (32/64-bit types only with 4-character strings); radices other than the listed ones at full length.',
                   'reference parser in the harness, exact u64 Horner evaluation'),
     'C13': _claim('TryFrom (bnum -> 12 primitives), BTryFrom between bnum types across all digit types, From/TryFrom from primitives into targets at least as wide, From<bool/char>, '
@@ -874,7 +882,7 @@ CLAIMS = {
                   'int -> float above 128 bits for digit types other than u64 and above 192 bits in the quick tier (320 / 1088 bits in the thorough tier).',
                   'independent IEEE-754 decode + bit-indexed spec; primitive `as` as second oracle'),
     'C15': _claim('from_be_slice / from_le_slice on all byte buffers with every slice length 0..=2*BYTES+2 satisfy the byte-indexed specification (Some exactly when the excess bytes are padding and '
-                  'the sign is kept; value bytes; empty slice is zero); to_be/from_be/to_le/from_le on the little-endian target; to/from_{be,le,ne}_bytes (bnum feature `nightly`, second harness crate) are exact inverses producing the two\'s-complement bytes.',
+                  'the sign is kept; value bytes; empty slice is zero); to_be/from_be/to_le/from_le on the little-endian target; to/from_{be,le,ne}_bytes (bnum feature `nightly`, second harness crate) are exact inverses producing the two\'s-complement bytes; slices of concrete length around the width for 160- and 320-bit types.',
                   'slices for widths above 128 bits; big-endian targets (to_ne/from_ne and to_be/to_le are checked for the little-endian target this sandbox has).',
                   'byte-indexed specification with symbolic slice length and byte index'),
     'C19': _claim('FromPrimitive::from_{u8..u128,i8..i128,usize,isize} (incl. targets narrower than the source), from_f32/from_f64 over all float bit patterns, ToPrimitive::to_* and '
@@ -884,18 +892,20 @@ CLAIMS = {
     'C02': _claim('overflowing_mul (low half + flag), its checked/wrapping/saturating/strict projections, widening_mul and carrying_mul: exact against the primitive product at 8 and 16 bits; '
                   'at 24 and 128 bits (u8 and u64 digits) for ALL operands with the digit product abstracted as an uninterpreted function constrained only by P<=(B-1)^2, P=0 iff a factor is 0, '
                   'functional consistency and commutativity (bnum\'s private digit::*::carrying_mul/widening_mul replaced via kani::stub); exact arithmetic on boundary-alphabet digits at 32 bits; '
-                  'and the real digit kernels of all four digit types against the double-width primitive product (public N=1 API and the verif_hooks wrappers).',
+                  'and the real digit kernels of all four digit types against the double-width primitive product (public N=1 API and the verif_hooks wrappers); '
+                  'exact (unabstracted) multiplication at 64..192 bits with ONE concrete operand (2^127, 2^64+1, 3, MAX/MIN ...) and the other operand + carry word fully symbolic, against an exact limb product.',
                   'exact full-operand products above 16 bits (covered modulo the abstraction + the kernel checks); N > 4.',
                   'primitive double-width product; sum of abstract digit products over a 2N-digit accumulator'),
     'C03': _claim('/ and % satisfy n = q*d + r, |r| < |d| with the sign rule, and every checked/wrapping/overflowing/saturating/strict/euclid/floor/ceil/next_multiple_of form is derived from that pair '
                   'by exact integer reasoning (incl. the MIN / -1 projections and None for a zero divisor): all operands at 8 bits, the non-Knuth paths at 16 bits (u8 digits), single-digit 16-bit, '
-                  'and Knuth D on 24-bit operands whose digits range over the boundary alphabet.',
+                  'Knuth D on 24-bit operands whose digits range over the boundary alphabet, and Knuth D with a CONCRETE multi-digit divisor and ALL dividends at 32 and 48 bits (u8/u16 digits) and '
+                  'at 192 bits (u64 digits, two quotient digits, limb oracle).',
                   'Knuth algorithm D on full operands above 16 bits (8-value alphabet per digit instead); the 16-bit Knuth path, 32/64/128-bit instantiations and the projections above 8 bits are thorough-tier only.',
                   'postcondition in the narrowest primitive holding the products'),
     'C04': _claim('operators + - * / % unary -, << >> with each of the 12 primitive amount types, pow, abs, next_power_of_two, next_multiple_of: in debug mode no panic and the exact value when the '
                   'result is representable / the amount is in 0..BITS, and NO return when it is not (must-panic harness with an unreachable cover); in release mode (debug assertions off, compiled separately) '
                   'no panic and the wrapped value; zero divisor, MIN / -1, MIN % -1, ilog of non-positive / base < 2 and strict_* panic in both modes; checked_* and the non-dividing '
-                  'wrapping_/overflowing_/saturating_ methods never panic for unconstrained arguments.',
+                  'wrapping_/overflowing_/saturating_ methods never panic for unconstrained arguments; * / % with one concrete operand at 128 bits against the exact limb product.',
                   'panic message text; multiplying/dividing operators above 8 bits (16 thorough); shifts by bnum-typed amounts (C17).',
                   'the overflow flag of the overflowing_* twin (whose exactness is C01/C02/C05/C08) and the explicit amount range'),
     'C08': _claim('overflowing/checked/wrapping/saturating/strict pow for all 8-bit bases and exponents over ALL of u32 (signed and unsigned), ilog/ilog2/ilog10 and their checked forms for all 8-bit '
@@ -903,12 +913,12 @@ CLAIMS = {
                   'pow and ilog(base) above 8 bits in the quick tier (16 bits in the thorough tier).',
                   'independent LSB-first square-and-multiply in exact-with-cap arithmetic; b^k <= x < b^(k+1)'),
     'C11': _claim('to_radix_le/to_radix_be/to_str_radix produce the canonical numeral (digits < radix, no leading zero, [0] for zero, lowercase, Horner value == input, leading - for negatives) and '
-                  'round-trip through from_radix_*/from_str_radix, for all 8-bit values at 12 radices (all 255 radices in the thorough tier) and for the digit-size-dependent branches of u16/u32/u64 digits.',
+                  'round-trip through from_radix_*/from_str_radix, for all 8-bit values at 12 radices (all 255 radices in the thorough tier) for the digit-size-dependent branches of u16/u32/u64 digits, and for 192..320-bit values with a concrete most significant digit in power-of-two radices (both bit-slicing routines).',
                   'N >= 2 (16-bit u8-digit values are thorough-tier only); N >= 3 never; values above 65535 for 32/64-bit digits.',
                   'postcondition + uniqueness of positional notation'),
     'C16': _claim('the same operation in two digit-type representations of the same width (16, 32, 64, 128 bits) gives the same result after an As cast (add/sub/neg/cmp/bitwise/counts/shifts/rotates/'
                   'saturating/casts for all operands; mul/div/rem/pow at 16 bits); zero-/sign-extension into a wider type commutes with add/sub/cmp/shl (and mul/div/rem/pow from 8 to 16 bits) whenever the '
-                  'narrow result is representable; the associated constants and the aliases U128..I8192 denote the advertised values.',
+                  'narrow result is representable; mul / div / rem with one concrete operand across digit types at 32, 64 and 128 bits; the associated constants and the aliases U128..I8192 denote the advertised values.',
                   'decimal parsing/printing across configurations (checked per type in C10/C11); mul/div/pow equivalence above 16 bits outside the boundary alphabet.',
                   'the other representation of the same value (miter), As casts verified in C09'),
     'C17': _claim('for every operator trait impl the seven forms (v op v, &v op v, v op &v, &v op &v, op=, op= &, const inherent twin) compute the value of the inherent method and panic exactly when it does; '
@@ -917,12 +927,14 @@ CLAIMS = {
                   'FromStr (C10) and PartialOrd/Ord (C07) are decided there; Mul/Div/Rem forms above 8 bits are thorough-tier.',
                   'the inherent method on the same operands; overflow flag / zero divisor as panic predicate'),
     'C18': _claim('the num_traits forwarders equal the inherent methods; PrimInt signed/unsigned shifts bit-indexed; Signed; Integer::div_floor/mod_floor/div_rem/divides/is_multiple_of, Euclid, Pow, MulAdd, '
-                  'gcd and lcm exact against i32 arithmetic for all 8-bit operands; Roots only for degree 1, receivers 0 and 1, and the documented panics.',
-                  'sqrt/cbrt/nth_root on general values (num-integer\'s u128 Newton iteration and 136-bit+ division are out of the solver\'s reach); Integer arithmetic above 8 bits (16 thorough).',
+                  'gcd and lcm exact against i32 arithmetic for all 8-bit operands; Roots: degree 1, receivers 0 and 1, the documented panics, and - with the Newton kernel and the u128 roots replaced by uninterpreted stand-ins - '
+                  'for ALL values and degrees: every shortcut (bits <= n => 1, delegation below 2^128, sign handling) fires exactly when it is exact; for concrete degrees and 136/192-bit values with a concrete top digit: the initial guess '
+                  'and the exact value of the first Newton step, without overflow.',
+                  'the value the Newton iteration converges to (second and later steps) and num-integer\'s u128 roots; Integer arithmetic above 8 bits (16 thorough).',
                   'inherent methods; exact i32 arithmetic; Euclid\'s algorithm'),
     'C20': _claim('with a symbolic RNG stream: gen_range / Uniform::sample / sample_single(_inclusive) stay inside the requested range for all bounds (8-bit types); the accepted RNG words are unbiased - '
                   'a relational two-run query shows that word L(h)+k is accepted with offset h for one offset iff it is for every other offset, hence every value has the same number of preimages; '
-                  'Standard and Fill/try_fill_slice take every byte of every digit from the stream in little-endian order (8..128 bits).',
+                  'Standard and Fill/try_fill_slice take every byte of every digit from the stream in little-endian order (8..128 bits); range membership for concrete bounds on 24..128-bit types with a symbolic stream.',
                   'sampling above 8 bits in the quick tier (16 bits thorough; the range multiplication is a full multiplier); streams with more than 2 consecutive rejections; statistical quality of the RNG.',
                   'order comparison on exact integers; L(h) = ceil(h*2^W/R) computed in the harness'),
 }
